@@ -188,6 +188,13 @@ func loadEngine(repo string, harnessDir string, extraPkgs []string) (*Engine, er
 	if err := addRuntime(harnessDir, repo, overlay); err != nil {
 		return nil, err
 	}
+	cuts, err := cutFiles(harnessDir, repo)
+	if err != nil {
+		return nil, err
+	}
+	for f, b := range cuts {
+		overlay[f] = b
+	}
 	cfg := &packages.Config{
 		Mode:       packages.LoadAllSyntax,
 		Dir:        repo,
@@ -345,7 +352,7 @@ func (g *Engine) runHarness(h *Harness, solverKind string, timeoutMs int) (res *
 		res.Paths = append(res.Paths, pr)
 		res.Status[pr.Status]++
 		switch pr.Status {
-		case "ok", "panic", "infeasible", "assumed-unwind", "assumed-oob":
+		case "ok", "panic", "infeasible", "assumed-unwind", "assumed-oob", "stop":
 		default:
 			if pr.Status == "oob" || pr.Status == "unwind" {
 				if h.OnLimit[pr.Status] == "violation" {
@@ -419,6 +426,15 @@ func addRuntime(harnessDir, repo string, overlay map[string][]byte) error {
 		}
 	}
 	for d, pkg := range dirs {
+		uses := false
+		for dst, src := range overlay {
+			if filepath.Dir(dst) == d && strings.Contains(string(src), "verifHarnesses[") {
+				uses = true
+			}
+		}
+		if !uses {
+			continue
+		}
 		overlay[filepath.Join(d, "zz_verif_rt.go")] = []byte(strings.ReplaceAll(string(tmpl), "PKGNAME", pkg))
 	}
 	return nil
